@@ -141,7 +141,11 @@ def check_case(case, stats=None, K=oracle.K_QUICK):
 @st.composite
 def cases(draw, nvec, all256=False):
     cfg = programs.Cfg(call_bias=25, tail_call_bias=40, max_funcs=4, max_params=3, d5_args=draw(st.booleans()))
-    c = draw(programs.program_cases(cfg, nenv=1))
+    if draw(st.integers(0, 4)) == 0:
+        from ..gen import callgraph
+        c = draw(callgraph.tailcall_cases(nenv=1))
+    else:
+        c = draw(programs.program_cases(cfg, nenv=1))
     if all256:
         vecs = list(range(256))
     else:
